@@ -13,7 +13,7 @@ import (
 func init() {
 	register(&Property{
 		ID:       "C08",
-		Patterns: []string{".", "./internal/filter/..."},
+		Patterns: []string{".", "./internal/filter/...", "image/jpeg"},
 		Run:      runC08,
 		Explanation: "Static rules on the decode side of the stream filters: (R1) every return of every Filter.Decode implementation is the malformed-classifier (asMalformedFilter), a delegation to another Decode, an identity pass-through of the input, or a plain failure, so that decoder errors are classified as malformed input; (R2) the per-stream budget given to Decode reaches a Charge (directly or through a callee that receives the budget), except for the listed constant-memory filters; DecodeStream derives one budget from the raw length and hands the same object to every layer; " +
 			"(R3) output of formats with intrinsic dimensions is bounded: the CCITTFax row cap min(MaxImageHeight, MaxImagePixels/columns) is applied on every path before the reader is built, whatever /Rows says, and the progressive-JPEG work cap is evaluated for every block visit of every scan kind (not only first passes); (R5) the filter-chain length cap dominates the per-filter loop; " +
@@ -32,6 +32,7 @@ func runC08(c *core.Ctx) {
 	ruleLZWPrefixOrder(c)
 	ruleIndexClamps(c)
 	ruleDCTPlaneCharge(c)
+	ruleJPEGHeaderValidation(c)
 	ruleAliasHygiene(c, [3]string{"C08-R11", "C08-R12", "C08-R13"}, "pdf/internal/filter/jbig2", "pdf/internal/filter/dct/jpeg")
 }
 
@@ -1054,4 +1055,84 @@ func enclosingAssign(fn *core.Func, n ast.Node) *ast.AssignStmt {
 		return true
 	})
 	return out
+}
+
+// ruleJPEGHeaderValidation (C08-R14): the JPEG decoder is a fork of the
+// standard library's image/jpeg.  The frame-header checks of the reference
+// (processSOF: precision, component count, sampling factors, equal chroma
+// subsampling ...) are what keeps the plane geometry used by makeImg and the
+// block reconstruction consistent; a header that passes fewer checks than
+// the reference makes the decoder index past the planes it allocated.  Every
+// "if cond { return err }" of the reference's processSOF, identified by its
+// enclosing case labels and its condition, is present in the fork.
+func ruleJPEGHeaderValidation(c *core.Ctx) {
+	const pk = "pdf/internal/filter/dct/jpeg"
+	ref := c.Prog.Pkgs["image/jpeg"]
+	if ref == nil || len(ref.Syntax) == 0 {
+		c.Check("C08-R14", pk+".processSOF/reference", "reference implementation available", func(o *core.Ob) {
+			core.Undecided("package image/jpeg is not loaded with syntax")
+		})
+		return
+	}
+	c.Check("C08-R14", pk+".(*decoder).processSOF/checks", "every frame-header check of the reference decoder (image/jpeg processSOF) is performed by the fork", func(o *core.Ob) {
+		collect := func(decl *ast.FuncDecl, src func(ast.Node) string) map[string]bool {
+			out := map[string]bool{}
+			var walk func(n ast.Node, ctx string)
+			walk = func(n ast.Node, ctx string) {
+				ast.Inspect(n, func(m ast.Node) bool {
+					switch x := m.(type) {
+					case *ast.CaseClause:
+						if m == n {
+							return true
+						}
+						var ls []string
+						for _, e := range x.List {
+							ls = append(ls, src(e))
+						}
+						for _, st := range x.Body {
+							walk(st, ctx+"/case "+strings.Join(ls, ","))
+						}
+						return false
+					case *ast.IfStmt:
+						if len(x.Body.List) == 1 {
+							if rs, ok := x.Body.List[0].(*ast.ReturnStmt); ok && len(rs.Results) == 1 {
+								out[ctx+" if "+src(x.Cond)] = true
+							}
+						}
+					}
+					return true
+				})
+			}
+			walk(decl.Body, "")
+			return out
+		}
+		var refDecl *ast.FuncDecl
+		for _, f := range ref.Syntax {
+			for _, d := range f.Decls {
+				if fd, ok := d.(*ast.FuncDecl); ok && fd.Name.Name == "processSOF" && fd.Body != nil {
+					refDecl = fd
+				}
+			}
+		}
+		if refDecl == nil {
+			core.Undecided("image/jpeg.processSOF not found")
+		}
+		fn := c.Prog.Func(pk, "(*decoder).processSOF")
+		want := collect(refDecl, c.Prog.Src)
+		got := collect(fn.Decl, c.Prog.Src)
+		o.At(fn.Site(fn.Decl, ""))
+		o.Fact("%d checks in the reference, %d in the fork", len(want), len(got))
+		o.Require(len(want) >= 8, "only %d checks found in the reference", len(want))
+		var missing []string
+		for k := range want {
+			o.Count(1)
+			if !got[k] {
+				missing = append(missing, k)
+			}
+		}
+		sort.Strings(missing)
+		for _, m := range missing {
+			o.Fail("the reference decoder rejects a frame header [%s]; the fork has no such check", strings.TrimSpace(m))
+		}
+	})
 }
